@@ -80,11 +80,14 @@ func checkUnique(c uniqueCase) (o pbt.Outcome, err error) {
 			c.Profile = append(c.Profile, r.Seq)
 		}
 	}
-	al := gen.MustBuild(a)
+	return uniqueOn(gen.MustBuild(a), a, c, nil, o)
+}
+
+// uniqueOn: prof = a profile object built earlier from c.Profile (nil: built here)
+func uniqueOn(al align.Alignment, a gen.Ali, c uniqueCase, prof *align.CountProfile, o pbt.Outcome) (pbt.Outcome, error) {
 	n, l := len(a.Rows), a.Length()
 	w := wildOf(a.Alphabet)
-	var prof *align.CountProfile
-	if c.Profile != nil {
+	if c.Profile != nil && prof == nil {
 		prof = buildProfile(c.Profile, l, a.Alphabet, c.ByHand)
 	}
 	gu, gn, gb := make([]int, n), make([]int, n), make([]int, n)
@@ -470,13 +473,17 @@ func alphaCode(alpha string) int {
 func checkReference(c refCase) (o pbt.Outcome, err error) {
 	a := resolve(c.Ali, c.F)
 	sizeClass(&o, c.F)
-	al := gen.MustBuild(a)
-	n, l := len(a.Rows), a.Length()
 	ref := c.Ext
 	if c.Ref >= 0 {
 		ref = a.Rows[c.Ref].Seq
 	}
-	refSeq := align.NewSequence("ref", []uint8(ref), "")
+	return referenceOn(gen.MustBuild(a), a, c, align.NewSequence("ref", []uint8(ref), ""), o)
+}
+
+// referenceOn judges the comparisons of the rows of al (content a) with the reference object refSeq
+func referenceOn(al align.Alignment, a gen.Ali, c refCase, refSeq align.Sequence, o pbt.Outcome) (pbt.Outcome, error) {
+	n, l := len(a.Rows), a.Length()
+	ref := refSeq.Sequence()
 	anyIndel, anySubst, anyCompat, anyIdentSpecial, refused := false, false, false, false, false
 	for i, s := range al.Sequences() {
 		for rep := 0; rep < 2; rep++ {
